@@ -807,8 +807,17 @@ fn check_stream(ctx: &mut Ctx, fam: &str, key: &str, c: &StreamCase, chunks: &[V
         start(&c.query, &c.mode, gate.reader(), sink.clone())
     };
     let info = |extra: serde_json::Value| {
-        json!({"query": c.query, "mode": c.mode, "lines": c.lines.len(), "kind": c.kind, "chunking": style, "chunks": chunks.len(),
-               "input_hex": if all.len() <= 600 { hexb(&all) } else { format!("{}…", hexb(&all[..600])) }, "detail": extra})
+        let mut j = json!({"query": c.query, "mode": c.mode, "lines": c.lines.len(), "kind": c.kind, "chunking": style, "chunks": chunks.len(),
+               "chunk_lens": chunks.iter().take(64).map(|c| c.len()).collect::<Vec<usize>>(),
+               "input_hex": if all.len() <= 600 { hexb(&all) } else { format!("{}…", hexb(&all[..600])) }});
+        if let Some(c) = extra.get("class") {
+            j["class"] = c.clone();
+        }
+        if let Some(w) = extra.get("what") {
+            j["what"] = w.clone();
+        }
+        j["detail"] = extra;
+        j
     };
     let mut released = 0usize;
     let mut complete_prev = 0usize;
